@@ -143,41 +143,7 @@ var funcmap = FuncMap{
 		}
 		return convert(m)
 	},
-	"__attr": func(k string, v interface{}, e bool) []Attribute {
-		if v, ok := v.(Bool); ok {
-			b := v.True()
-			return []Attribute{{Name: k, BoolVal: &b}}
-		}
-		if v, ok := v.(bool); ok {
-			return []Attribute{{Name: k, BoolVal: &v}}
-		}
-		if _, ok := v.(Nil); ok || v == nil {
-			// null, or an undefined variable (nil interface): the attribute is omitted
-			b := false
-			return []Attribute{{Name: k, BoolVal: &b}}
-		}
-		if arr, ok := v.(*Array); ok && k == "class" {
-			// class=[a, cond && b, c]: entries that are false or null are dropped, as pug does
-			var classes []string
-			for _, item := range arr.items {
-				if b, isBool := item.(Bool); isBool && !bool(b) {
-					continue
-				}
-				if _, isNil := item.(Nil); isNil || item == nil {
-					continue
-				}
-				classes = append(classes, item.String())
-			}
-			return []Attribute{{Name: k, Val: JavaScriptExpression(strings.Join(classes, " ")), MustEscape: e}}
-		}
-		if v, ok := v.(Object); ok {
-			return []Attribute{{Name: k, Val: JavaScriptExpression(v.String()), MustEscape: e}}
-		}
-		if v, ok := v.(string); ok {
-			return []Attribute{{Name: k, Val: JavaScriptExpression(string(v)), MustEscape: e}}
-		}
-		return []Attribute{{Name: k, Val: JavaScriptExpression(fmt.Sprintf("%v", v)), MustEscape: e}}
-	},
+	"__attr": attrOf,
 	"__attrs": func(attrs ...*Array) (res string) {
 		type tmpattr struct {
 			mustEscape bool
@@ -262,13 +228,10 @@ var funcmap = FuncMap{
 		return
 	},
 	"__and_attrs": func(x *Map) (res []Attribute) {
+		// every spread value is treated like a written attribute: false / null / undefined omit it, true names it, class lists
+		// drop their false / null entries
 		for _, k := range x.Keys() {
-			if b, ok := x.Member(k).(Bool); ok {
-				boolval := b.True()
-				res = append(res, Attribute{Name: k, Val: JavaScriptExpression(x.Member(k).String()), MustEscape: true, BoolVal: &boolval})
-			} else {
-				res = append(res, Attribute{Name: k, Val: JavaScriptExpression(x.Member(k).String()), MustEscape: true})
-			}
+			res = append(res, attrOf(k, x.Member(k), true)...)
 		}
 		return
 	},
@@ -282,6 +245,55 @@ var funcmap = FuncMap{
 	"__freeze": func(name string) Nil {
 		return Nil{}
 	},
+}
+
+// classNames collects the class names of a class value: lists (also nested, as a repeated class attribute of a mixin call
+// arrives) are flattened, false and null entries are dropped, as pug does
+func classNames(v interface{}, out []string) []string {
+	switch v := v.(type) {
+	case *Array:
+		for _, item := range v.items {
+			out = classNames(item, out)
+		}
+		return out
+	case Bool:
+		if !bool(v) {
+			return out
+		}
+	case Nil, nil:
+		return out
+	}
+	if o, ok := v.(Object); ok {
+		return append(out, o.String())
+	}
+	return append(out, fmt.Sprintf("%v", v))
+}
+
+// attrOf is the attribute record of one name/value pair (__attr)
+func attrOf(k string, v interface{}, e bool) []Attribute {
+	if v, ok := v.(Bool); ok {
+		b := v.True()
+		return []Attribute{{Name: k, BoolVal: &b}}
+	}
+	if v, ok := v.(bool); ok {
+		return []Attribute{{Name: k, BoolVal: &v}}
+	}
+	if _, ok := v.(Nil); ok || v == nil {
+		// null, or an undefined variable (nil interface): the attribute is omitted
+		b := false
+		return []Attribute{{Name: k, BoolVal: &b}}
+	}
+	if arr, ok := v.(*Array); ok && k == "class" {
+		// class=[a, cond && b, c]: entries that are false or null are dropped, as pug does
+		return []Attribute{{Name: k, Val: JavaScriptExpression(strings.Join(classNames(arr, nil), " ")), MustEscape: e}}
+	}
+	if v, ok := v.(Object); ok {
+		return []Attribute{{Name: k, Val: JavaScriptExpression(v.String()), MustEscape: e}}
+	}
+	if v, ok := v.(string); ok {
+		return []Attribute{{Name: k, Val: JavaScriptExpression(string(v)), MustEscape: e}}
+	}
+	return []Attribute{{Name: k, Val: JavaScriptExpression(fmt.Sprintf("%v", v)), MustEscape: e}}
 }
 
 func runtimeAdd(l, r interface{}) Object {
